@@ -430,6 +430,8 @@ def check_params(model, rep, sx: SX):
 
 
 def check(model, rep):
+    from checks.solver_common import absorb_cmp
+    absorb_cmp(model, rep, 'C19.dep.cmp', ('Angle', 'AngularPosition', 'Current'))
     rep.explain('C19: constructors of the five sign-constrained kinds reject violating values on every completing '
                 'path; every operator/abs/neg/to result is built by a constructor whose guard dominates the result '
                 '(operators evaluated symbolically with constructor guards inlined, all 780 operand triples); the only '
